@@ -113,7 +113,7 @@ Definition ccheck (c : ccase) : bool :=
   | CK s o => str_eqb (hira_to_kata el_katakana_table s) o
   end.
 """
-        okc, failing, clog = run_coq_cases("C19", IMPORTS, "ccase", "ccheck", cc, shard=max(300, len(cc) // 16 + 1), extra_defs=extra)
+        okc, failing, clog = run_coq_cases("C19", IMPORTS, "ccase", "ccheck", cc, shard=min(1500, max(300, len(cc) // 16 + 1)), extra_defs=extra)
         n_model = len(cc)
         if not okc:
             res.tie_broken("correspondence: evaluating the romaji model failed", clog)
